@@ -17,12 +17,13 @@ type zf struct {
 var zooTypes = map[string][]zf{
 	"Query": {{"title", "", ""}, {"count", "", ""}, {"ratio", "", ""}, {"flag", "", ""}, {"size", "", ""},
 		{"keeper", "Keeper", "keeper"}, {"keepers", "Keeper", ""}, {"animals", "Animal", ""}, {"things", "Thing", ""},
-		{"grid", "Cell", ""}, {"echo", "", "echo"}, {"tags", "", ""}, {"nums", "", ""}, {"find", "Keeper", "find"}, {"boss", "Keeper", ""}},
+		{"grid", "Cell", ""}, {"echo", "", "echo"}, {"tags", "", ""}, {"nums", "", ""}, {"find", "Keeper", "find"}, {"boss", "Keeper", ""},
+		{"ghost", "", ""}, {"relay", "", "relay"}, {"pick", "Thing", "pick"}},
 	"Keeper": {{"name", "", ""}, {"age", "", ""}, {"pets", "Animal", ""}, {"friend", "Keeper", ""}, {"cells", "Cell", ""},
-		{"motto", "", "motto"}, {"rank", "", ""}, {"dogs", "Dog", ""}},
-	"Dog":      {{"name", "", ""}, {"legs", "", ""}, {"barks", "", ""}, {"owner", "Keeper", ""}},
-	"Bird":     {{"name", "", ""}, {"legs", "", ""}, {"wingspan", "", ""}},
-	"Cell":     {{"x", "", ""}, {"y", "", ""}, {"label", "", ""}},
+		{"motto", "", "motto"}, {"rank", "", ""}, {"dogs", "Dog", ""}, {"ghost", "", ""}, {"nick", "", "nick"}, {"code", "", "code"}},
+	"Dog":      {{"name", "", ""}, {"legs", "", ""}, {"barks", "", ""}, {"owner", "Keeper", ""}, {"code", "", ""}},
+	"Bird":     {{"name", "", ""}, {"legs", "", ""}, {"wingspan", "", ""}, {"code", "", ""}},
+	"Cell":     {{"x", "", ""}, {"y", "", ""}, {"label", "", ""}, {"code", "", ""}},
 	"Animal":   {{"name", "", ""}, {"legs", "", ""}},
 	"Mutation": {{"rename", "Keeper", "rename"}},
 }
@@ -99,6 +100,22 @@ type ReqOpt struct {
 	PathMode bool
 	// UniqueKeys avoids repeating a response key inside one selection set.
 	UniqueKeys bool
+	// Ghost allows the schema fields that have no Go counterpart (every
+	// strategy answers them with an error).
+	Ghost bool
+	// Relay allows the field whose resolver issues a nested request on the
+	// same root.
+	Relay bool
+	// Pick allows pick(i:) (a union-typed field whose argument decides the
+	// member), the code fields (defined differently by every member) and
+	// sub-fields selected directly under a union-typed field.
+	Pick bool
+	// Nick allows Keeper.nick (nullable argument, Go parameter that cannot
+	// take null: a reflection root answers null / omitted with an error).
+	Nick bool
+	// VarDirectivesInMeta puts @skip/@include with variables on selections
+	// beneath __schema / __type.
+	VarDirectivesInMeta bool
 }
 
 type reqGen struct {
@@ -187,6 +204,28 @@ func (g *reqGen) argsFor(kind string) string {
 		default:
 			parts = []string{"filter: {names: [\"k1\", \"k" + strconv.Itoa(g.t.Draw(4)) + "\"], tag: \"t\"}"}
 		}
+	case "relay":
+		parts = []string{"n: " + strconv.Itoa(g.t.Draw(3))}
+	case "pick":
+		if g.t.Bool(1, 2) {
+			parts = []string{"i: " + g.addVar("pi", "Int!", g.t.Draw(12), "")}
+		} else {
+			parts = []string{"i: " + strconv.Itoa(g.t.Draw(12))}
+		}
+	case "nick":
+		switch g.t.Draw(4) {
+		case 0:
+			return ""
+		case 1:
+			parts = []string{"n: null"}
+		default:
+			parts = []string{"n: " + strconv.Itoa(g.t.Draw(9))}
+		}
+	case "code":
+		if g.t.Bool(1, 4) {
+			return ""
+		}
+		parts = []string{"pad: " + strconv.FormatBool(g.t.Bool(1, 2))}
 	case "rename":
 		parts = []string{"old: " + strconv.Quote("k"+strconv.Itoa(g.t.Draw(4))), "new: \"zz\""}
 	}
@@ -219,7 +258,28 @@ func (g *reqGen) directive() string {
 }
 
 func (g *reqGen) fieldsOf(typ string) []zf {
-	fs := zooTypes[typ]
+	var fs []zf
+	for _, f := range zooTypes[typ] {
+		switch f.name {
+		case "ghost":
+			if !g.o.Ghost {
+				continue
+			}
+		case "relay":
+			if !g.o.Relay {
+				continue
+			}
+		case "pick", "code":
+			if !g.o.Pick {
+				continue
+			}
+		case "nick":
+			if !g.o.Nick {
+				continue
+			}
+		}
+		fs = append(fs, f)
+	}
 	if g.o.Strat == StratReflect {
 		var out []zf
 		for _, f := range fs {
@@ -242,10 +302,28 @@ func (g *reqGen) fieldsOf(typ string) []zf {
 	return fs
 }
 
+// directUnderUnion is a field selected directly under a union-typed field
+// (ggql resolves it against whichever member the object is): the members
+// define code differently, and name does not exist on every member.
+func (g *reqGen) directUnderUnion() string {
+	switch g.t.Draw(4) {
+	case 0:
+		return "code"
+	case 1:
+		return "code(pad: " + strconv.FormatBool(g.t.Bool(1, 2)) + ")"
+	case 2:
+		return "name"
+	}
+	return "c: code" + g.directive()
+}
+
 // pathSelection selects one object-typed field (or a fragment on a union
 // member) per level and one leaf at the end.
 func (g *reqGen) pathSelection(typ string, depth int) string {
 	if members, ok := zooUnion[typ]; ok {
+		if g.o.Pick && g.t.Bool(1, 2) {
+			return " { " + g.directUnderUnion() + " }"
+		}
 		m := members[g.t.Draw(len(members))]
 		return " { ... on " + m + g.pathSelection(m, depth+1) + " }"
 	}
@@ -277,6 +355,9 @@ func (g *reqGen) selection(typ string, depth int, ind string) string {
 	b.WriteString(" {\n")
 	if members, ok := zooUnion[typ]; ok {
 		b.WriteString(ind + "  __typename\n")
+		if g.o.Pick && g.t.Bool(1, 2) {
+			b.WriteString(ind + "  " + g.directUnderUnion() + "\n")
+		}
 		for _, m := range members {
 			if g.t.Bool(2, 3) {
 				b.WriteString(ind + "  ... on " + m + g.selection(m, depth+1, ind+"  ") + "\n")
@@ -392,11 +473,16 @@ func GenRequest(t *tape.Tape, o ReqOpt) *Request {
 		}
 		var body string
 		if o.Introspection && t.Bool(1, 6) {
+			d1, d2 := "", ""
+			if o.VarDirectivesInMeta {
+				d1 = " @include(if: " + g.addVar("inc", "Boolean!", true, "true") + ")"
+				d2 = " @skip(if: " + g.addVar("sk", "Boolean!", false, "false") + ")"
+			}
 			switch t.Draw(3) {
 			case 0:
-				body = " {\n  __schema { queryType { name } mutationType { name } types { name kind } directives { name } }\n}"
+				body = " {\n  __schema { queryType { name } mutationType" + d2 + " { name } types" + d1 + " { name kind } directives { name" + d2 + " } }\n}"
 			case 1:
-				body = " {\n  __type(name: \"" + []string{"Keeper", "Animal", "Thing", "Size", "Filter", "Nope"}[t.Draw(6)] + "\") { name kind fields { name type { name kind ofType { name } } } possibleTypes { name } enumValues { name } inputFields { name } interfaces { name } }\n}"
+				body = " {\n  __type(name: \"" + []string{"Keeper", "Animal", "Thing", "Size", "Filter", "Nope"}[t.Draw(6)] + "\") { name kind" + d2 + " fields" + d1 + " { name type { name kind ofType { name } } } possibleTypes { name } enumValues { name } inputFields { name } interfaces { name } }\n}"
 			default:
 				body = " {\n  __typename\n  title\n}"
 			}
